@@ -19,30 +19,33 @@ fn iso3(t: &Value) -> Iso3 {
     let rot = UnitQuaternion::from_rotation_matrix(&Rotation3::from_matrix_unchecked(mat));
     Iso3::from_parts(Translation3::new(tr[0] as f64, tr[1] as f64, tr[2] as f64), rot)
 }
-fn qp3(q: &mut Q, p: &Point3) -> Vec<i64> { vec![q.q(p.x, QX), q.q(p.y, QX), q.q(p.z, QX)] }
+fn qp3s(q: &mut Q, p: &Point3, s: f64) -> Vec<i64> { vec![q.q(p.x / s, QX), q.q(p.y / s, QX), q.q(p.z / s, QX)] }
 fn area(m: &Mesh) -> f64 { m.tri_mesh().triangles().map(|t| t.area()).sum() }
 
 pub fn exec(rec: &Value, _st: &mut State) -> Value {
     let op = gs(rec, "op");
     let mut q = Q::new();
-    let verts: Vec<Point3> = gvvi(rec, "vpos").iter().map(|p| Point3::new(p[0] as f64, p[1] as f64, p[2] as f64)).collect();
+    // optional power-of-two scale of the whole scene (mesh, plane, motion); observations are reported in lattice units
+    let s = (2.0f64).powi(gi_or(rec, "sc", 0) as i32);
+    let verts: Vec<Point3> = gvvi(rec, "vpos").iter().map(|p| Point3::new(p[0] as f64 * s, p[1] as f64 * s, p[2] as f64 * s)).collect();
     let faces: Vec<[u32; 3]> = gvvi(rec, "faces").iter().map(|f| [f[0] as u32, f[1] as u32, f[2] as u32]).collect();
     let mut mesh = Mesh::new(verts, faces, false);
     let n = gvi(rec, "n");
     let nv = Vector3::new(n[0] as f64, n[1] as f64, n[2] as f64);
-    let d = (gi(rec, "dn") as f64 / gi(rec, "dd") as f64) / nv.norm();
+    let d = (gi(rec, "dn") as f64 / gi(rec, "dd") as f64) * s / nv.norm();
     let mut plane = Plane3::new(UnitVec3::new_normalize(nv), d);
-    let t = iso3(&rec["T"]);
+    let mut t = iso3(&rec["T"]);
+    t.translation.vector *= s;
     mesh.transform(&t);
     plane = plane.transform_by(&t);
     match op {
         "section" => {
-            let stol = match gi_or(rec, "stol16", 0) { 0 => None, k => Some(k as f64 / 16.0) };
+            let stol = match gi_or(rec, "stol16", 0) { 0 => None, k => Some(k as f64 / 16.0 * s) };
             match mesh.section(&plane, stol) {
                 Err(_) => json!({"ok": false}),
                 Ok(curves) => {
-                    let cs: Vec<Vec<Vec<i64>>> = curves.iter().map(|c| c.points().iter().map(|p| qp3(&mut q, p)).collect()).collect();
-                    let lens: Vec<i64> = curves.iter().map(|c| q.q(c.length(), QX)).collect();
+                    let cs: Vec<Vec<Vec<i64>>> = curves.iter().map(|c| c.points().iter().map(|p| qp3s(&mut q, p, s)).collect()).collect();
+                    let lens: Vec<i64> = curves.iter().map(|c| q.q(c.length() / s, QX)).collect();
                     json!({"ok": true, "curves": cs, "lens": lens, "finite": q.finite})
                 }
             }
@@ -50,14 +53,14 @@ pub fn exec(rec: &Value, _st: &mut State) -> Value {
         "split" => {
             let total = area(&mesh);
             match mesh.split(&plane) {
-                SplitResult::Negative => json!({"kind": "negative", "a": [], "b": [], "area_a": 0, "area_b": 0, "area": q.q(total, QX), "finite": q.finite}),
-                SplitResult::Positive => json!({"kind": "positive", "a": [], "b": [], "area_a": 0, "area_b": 0, "area": q.q(total, QX), "finite": q.finite}),
+                SplitResult::Negative => json!({"kind": "negative", "a": [], "b": [], "area_a": 0, "area_b": 0, "area": q.q(total / (s * s), QX), "finite": q.finite}),
+                SplitResult::Positive => json!({"kind": "positive", "a": [], "b": [], "area_a": 0, "area_b": 0, "area": q.q(total / (s * s), QX), "finite": q.finite}),
                 SplitResult::Pair(a, b) => {
                     // un-move the parts so that the judge works in the mesh's own frame (exact inverse by nalgebra)
                     let ti = t.inverse();
-                    let va: Vec<Vec<i64>> = a.vertices().iter().map(|p| qp3(&mut q, &(ti * p))).collect();
-                    let vb: Vec<Vec<i64>> = b.vertices().iter().map(|p| qp3(&mut q, &(ti * p))).collect();
-                    json!({"kind": "pair", "a": va, "b": vb, "area_a": q.q(area(&a), QX), "area_b": q.q(area(&b), QX), "area": q.q(total, QX), "finite": q.finite})
+                    let va: Vec<Vec<i64>> = a.vertices().iter().map(|p| qp3s(&mut q, &(ti * p), s)).collect();
+                    let vb: Vec<Vec<i64>> = b.vertices().iter().map(|p| qp3s(&mut q, &(ti * p), s)).collect();
+                    json!({"kind": "pair", "a": va, "b": vb, "area_a": q.q(area(&a) / (s * s), QX), "area_b": q.q(area(&b) / (s * s), QX), "area": q.q(total / (s * s), QX), "finite": q.finite})
                 }
             }
         }
